@@ -11,7 +11,7 @@ TIMEOUT = 1500
 RULE = ("generated applications (3 levels; per level a random subset of char/int/float/toggle/option/string "
         "parameters and int/float/toggle/option #N arrays with run-time ranges, defaults, option maps; embedded, "
         "enumerated (#3) and pointer sub-trees; preset selectors with dependent defaults; toggles that allocate / free "
-        "a pointer sub-tree; enabled-by on embedded sub-trees) x states reached by 0..14 random parameter messages "
+        "a pointer sub-tree; enabled-by on embedded sub-trees in its three forms: sibling toggle, toggle inside the sub-tree, rSelf) x states reached by 0..14 random parameter messages "
         "(in range, at and beyond each bound, type extremes, symbols, strings with quotes/newlines/%/backslashes); "
         "plus hand-written files with a wrong header, another application name, an unparsable line, a line no port "
         "accepts.  Non-trivial = at least 2 saved lines or a rejected file.")
@@ -36,10 +36,9 @@ def gen(rng, tier, dist):
     dist["macro-made metadata blocks"] = len(out)
     for c in range(n):
         opts = {"p_soft": 0.3 if rng.random() < 0.3 else 0.0, "p_rdep": 0.2,
-                # the inner-switch ("child/toggle") and rSelf forms of "enabled by" are generated by
-                # save_common.gen_level when these are > 0; both still hit defects of the library
-                # (notes/C12.md, stage 3), so they are off in the registered check
-                "p_inner": 0.0, "p_self": 0.0}
+                # the inner-switch ("child/toggle") and rSelf forms of "enabled by" (save_common.gen_level;
+                # D30 / D32 fixed, D31 = cyclic metadata: notes/C12.md stage 4)
+                "p_inner": 0.4 if rng.random() < 0.3 else 0.0, "p_self": 0.4 if rng.random() < 0.25 else 0.0}
         if c % 12 == 11:
             app = sc.static_app()         # the macro-made application
             ref = sc.Ref(app)
@@ -180,6 +179,10 @@ def gen_rej(rng, app, ref, tree, flat, apro):
 
 # ---------------------------------------------------------------------------
 def canon(case, line):
+    if line.startswith("UNDECLARED "):
+        # the model driver evaluated `declared a (apropos_of_tree root)` for this application and it does
+        # not hold (hypothesis of C13_perm_invariant / C12's sorted pipeline): shown as a disagreement
+        return line[:200]
     f = case.split(" ")
     if line.startswith("CRASH") or line.startswith("BADCASE") or line == "NOOUT":
         return line
@@ -275,7 +278,11 @@ TECHNIQUE = ("Coq proofs about an executable abstract application (ports with ki
 LEVEL_TEXT = ("For every abstract application and state: a line is saved exactly for the live ports whose value differs from the "
               "default the state selects (C12_minimal); a default-initialised instance saves nothing (C12_untouched); wrong header, "
               "other application name, unparsable text, unmatched line give a negative result with the code's offset arithmetic "
-              "(C12_reject_*); a stored value is a fixed point of its callback (C12_stored_value_is_a_fixed_point). The round trip "
-              "itself (C12_roundtrip) is NOT proved; it is decided end to end by the correspondence run on every check.")
+              "(C12_reject_*); a stored value is a fixed point of its callback (C12_stored_value_is_a_fixed_point). The round trip is "
+              "proved for the abstract application incl. pointer sub-trees and #N arrays under wf_app + stable state "
+              "(C12_roundtrip_abstract) and through the pipeline real_load (real_save st) with the sort stage (C13's scan_deps + Kahn "
+              "model, C13_topo) and the value-equality stage (C16's vals_eq model, C16_eq_is_key_equality) instantiated "
+              "(C12_roundtrip_pipeline_sorted_eq_partial); the walk (C09), print/scan (C10) and dispatch (C04+C14) stages are still "
+              "hypotheses stated at the abstract level.")
 LEVEL_NOTE = ("abstract application (printing/scanning, walk, dispatch are data of the model: C10/C09/C04); the real pipeline is tied to the "
-              "model by the correspondence run; see notes/C12.md for the open round-trip theorem and the hypotheses it would import")
+              "model by the correspondence run; see notes/C12.md (stage 4) for the remaining stage hypotheses")
